@@ -121,18 +121,23 @@ def hist_worker(a):
         g.run(a["n"])
         if a.get("final_stats", True) and not s.dead:
             s.do({"t": "stats"})
-        res = s.finish()
+        s.finish()
     except Exception:
         s.kill()
         raise
+    return post(s, a["build"], cfg, a["props"], a["seed"], a.get("shrink", True), a.get("want_sample"))
+
+
+def post(s, build, cfg, props, seed, do_shrink=True, want_sample=False):
+    """Monitor a finished session; shrink witnesses; package the result for fold()."""
     tr = s.trace
+    res = s.res
     viol, stats = monitor.analyze(tr)
-    props = set(a["props"])
+    props = set(props)
     mine = [v for v in viol if v.prop in props]
     out = []
     crashed = not res.clean()
     stats["daemon_unclean"] = 1 if crashed else 0
-    # one witness per (prop, sig)
     seen = set()
     for v in mine:
         if (v.prop, v.sig) in seen:
@@ -140,13 +145,13 @@ def hist_worker(a):
         seen.add((v.prop, v.sig))
         events = [e for e, _ in tr.steps[:v.step + 1]]
         wit_tr = tr
-        if a.get("shrink", True) and len(seen) <= 3:
+        if do_shrink and len(seen) <= 3:
             def still(t2, v=v):
                 v2, _ = monitor.analyze(t2)
                 return any(x.prop == v.prop and x.sig == v.sig for x in v2)
             try:
-                evs, ser = shrink(a["build"], cfg, events, still)
-                wit_tr = replay_events(a["build"], cfg, evs, ser)
+                evs, ser = shrink(build, cfg, events, still)
+                wit_tr = replay_events(build, cfg, evs, ser)
                 v3, _ = monitor.analyze(wit_tr)
                 vv = [x for x in v3 if x.prop == v.prop and x.sig == v.sig]
                 if vv:
@@ -157,18 +162,37 @@ def hist_worker(a):
             except Exception:
                 wit_tr = tr
         out.append((v.prop, v.rule, v.sig, "%s\nconfig: %s\nhistory (shrunk):\n%s" % (v.text, cfg.to_json(), render_trace(wit_tr)),
-                    {"config": cfg.to_json(), "events": events, "seed": a["seed"]}))
+                    {"config": cfg.to_json(), "events": events, "seed": seed}))
     crash = []
     if crashed:
         for kind, func in res.crash_events():
             crash.append((kind, func, res.stderr[-2500:], render_trace(tr, 12)))
     nontrivial = stats["verdicts"] > 0
-    sample = None
-    if a.get("want_sample"):
-        sample = render_trace(tr, 40)
+    sample = render_trace(tr, 40) if want_sample else None
     return {"viol": out, "stats": stats, "crash": crash, "nontrivial": nontrivial, "sample": sample, "nsteps": len(tr.steps),
-            "hash": vcommon.h([a["config"], [proto.render(e) for e, _ in tr.steps]]), "config": a["config"],
+            "hash": vcommon.h([cfg.to_json(), [proto.render(e) for e, _ in tr.steps]]), "config": cfg.to_json(),
             "events": [e for e, _ in tr.steps] if crash else None}
+
+
+def orders_worker(a):
+    """A batch of enumerated single-client histories (lib/orders.py).  a = dict(build, cases, props, timeout)."""
+    import orders
+    results = []
+    for k, case in enumerate(a["cases"]):
+        table, order, policy, tpos, hpos, pw, seed, extra = case
+        cfg = proto.Config(orders.TABLES[table] if isinstance(table, int) else table, timeout=a.get("timeout", 3600),
+                           rules=extra.get("rules"), use_class=bool(extra.get("rules")))
+        rng = random.Random(seed)
+        s = proto.Session(a["build"], cfg, leaks=a.get("leaks", True))
+        try:
+            orders.run_order(s, rng, order, policy, tpos, hpos, pw, second_pw=extra.get("second_pw"), ip=extra.get("ip", "1.2.3.4"),
+                             fields=gen.Fields(rng, boundary=extra.get("boundary", 0.3)))
+            s.finish()
+        except Exception:
+            s.kill()
+            raise
+        results.append(post(s, a["build"], cfg, a["props"], seed, a.get("shrink", True), want_sample=(k == 0 and a.get("want_sample"))))
+    return results
 
 
 def fold(chk, prop, results, crash_is_violation=False):
